@@ -24,8 +24,8 @@ def project (c : MapCall) (p : MKey × Elem) : MapRet :=
     when `l` is the pair list the object has to hand out: call `i` returns the component it asks for
     of the `i`-th pair of `l`, and nil from the end of `l` on. -/
 def mapAnswers (l : List (MKey × Elem)) (calls : List MapCall) : List MapRet :=
-  calls.zipIdx.map (fun ci => match l[ci.2]? with
-    | some p => project ci.1 p
+  calls.mapIdx (fun i c => match l[i]? with
+    | some p => project c p
     | none => MapRet.nil)
 
 end IterObj
